@@ -15,7 +15,7 @@ FILES = ["anytree/exporter/dictexporter.py", "anytree/importer/dictimporter.py"]
 ASSUMPTIONS = ["attribute values are opaque tokens (exporter and importer only copy them); a pool of ints, floats, "
                "strings, None, booleans, nested lists and dicts is used",
                "node classes with an instance __dict__ (AnyNode, Node, a user NodeMixin class)"]
-KEYS = ["k0", "k1", "z", "a b", "päö", "id"]
+KEYS = ["k0", "k1", "z", "a b", "päö", "id", "size", "depth", "root"]
 NPOOL = 20
 JSON_SAFE = [0, 1, 2, 3, 4, 5, 6, 7, 8, 9, 10, 11, 12, 13, 14, 15, 16, 17, 18, 19]
 AI = {"identity": "AIdentity", "sort": "ASort", "dropk0": "ADropK0"}
@@ -62,7 +62,7 @@ def gen_for(tier, seed, salt, use_json):
                 t = attr_tree(rng, shape, "node" in (cls, icls), pool)
                 h = iheight(t)
                 for ml in [None] + list(range(0, h + 3)):
-                    c = {"mode": "tree", "tree": t, "cls": cls, "icls": icls, "ml": ml, "jml": None,
+                    c = {"mode": "tree", "tree": t, "cls": cls, "icls": icls, "ml": ml, "jml": None, "embed": len(cases) % 3 == 1,
                          "aiter": rng.choice(["identity", "identity", "sort", "dropk0"]),
                          "citer": rng.choice(["list", "list", "reversed", "droplast"]),
                          "ordered": rng.random() < 0.5}
